@@ -30,6 +30,12 @@ export function mkValue(spec, rt, name = '?') {
       };
       return rt.tag(f, id);
     }
+    case 'counterfn': {
+      const id = spec.id ?? name;
+      let n = 0;
+      const f = function (...args) { rt.ev('call', { id, argc: args.length }); n += 1; return `${id}#${n}`; };
+      return rt.tag(f, id);
+    }
     case 'obj': {
       const o = {};
       for (const [k, v] of Object.entries(spec.v || {})) o[k] = mkValue(v, rt, name + '.' + k);
